@@ -50,6 +50,13 @@ def val_key(b, op):
             if sp is None:
                 break
             p = sp
+        elif len(ds) == 1 and ds[0][2] == 'call' and (callee_name(ds[0][3]) or '') in ('std::mem::size_of', 'core::mem::size_of'):
+            # `size_of::<u16>()` spelled instead of the literal 2
+            c = op_const(ds[0][3]['func']) or {}
+            sz = {'u8': 1, 'i8': 1, 'bool': 1, 'u16': 2, 'i16': 2, 'u32': 4, 'i32': 4, 'u64': 8, 'i64': 8, 'u128': 16}.get(((c.get('args') or [None])[0]))
+            if sz is not None:
+                return ('const', sz)
+            break
         else:
             break
     return ('local', p['l']) if not place_proj(p) else ('place', place_key(p))
